@@ -55,6 +55,23 @@ Theorem C15_gen_siblings_independent : forall zero growcap lg ops a b heap, h_ok
 Proof. exact GenAdaptP.siblings_independent. Qed.
 Print Assumptions C15_gen_siblings_independent.
 
+(* nest(fields) on the same heap: for ops whose slices lie inside their arrays, the translated loop ends
+   without a panic, writes NO existing array (the heap after is the heap before plus new arrays), the
+   slice it returns reads as the nesting of fields under the ops (a group op wraps what has been built
+   so far into one attribute, an attrs op puts its attributes in front), and that slice is either the
+   caller's own [fields] (no op changed it) or lives in an array allocated by this call -- so it shares
+   no array with any stored op.attrs, and the printer, which sorts what it is handed in place, cannot
+   reorder a handler's stored attributes *)
+Theorem C15_gen_handler_nest : forall zero growcap grp ops fields heap,
+  (forall op, In op ops -> h_ok heap (snd op) = true) -> h_ok heap fields = true ->
+  exists res extra,
+    Handlers.handler_nest zero growcap grp ops fields heap = Some (res, heap ++ extra)
+    /\ h_read (heap ++ extra) res
+       = nest_cells grp (map (fun op => (fst op, h_read heap (snd op))) ops) (h_read heap fields)
+    /\ (res = fields \/ (let '(a, _, _, _) := res in (length heap <= a)%nat)).
+Proof. exact GenAdaptP.gen_handler_nest. Qed.
+Print Assumptions C15_gen_handler_nest.
+
 
 (* ---- ties: the five decision functions translated from the source equal the
    references the theorems are about, for all arguments ---- *)
